@@ -15,8 +15,12 @@ import re
 import subprocess
 import sys
 
-VERIF = "/verif"
-WT = "/tmp/wt_seed_confirm"
+# MX_VERIF / MX_REPO: run against snapshots (vp run --with-repo) so that editing /verif and /repo meanwhile does not
+# disturb the matrix, and the matrix does not block them. The harness' Cargo.toml of the snapshot must point at MX_REPO
+# (tools/matrix_in_snapshot.sh does that).
+VERIF = os.environ.get("MX_VERIF", "/verif")
+REPO = os.environ.get("MX_REPO", "/repo")
+WT = "/tmp/wt_seed_confirm_%d" % os.getpid()
 
 
 def sh(cmd, cwd=None, timeout=3600):
@@ -48,14 +52,14 @@ def main():
     ids = sorted(d for d in os.listdir(os.path.join(VERIF, "seeded")) if os.path.isdir(os.path.join(VERIF, "seeded", d)))
     if only:
         ids = [i for i in ids if i in only]
-    if sh("git status --porcelain --untracked-files=no", cwd="/repo").stdout.strip():
-        print("/repo is not clean")
+    if sh("git status --porcelain --untracked-files=no", cwd=REPO).stdout.strip():
+        print("%s is not clean" % REPO)
         sys.exit(9)
-    head = sh("git rev-parse --short HEAD", cwd="/repo").stdout.strip()
+    head = sh("git rev-parse --short HEAD", cwd=REPO).stdout.strip()
     if confirm:
-        sh("git worktree prune", cwd="/repo")
+        sh("git worktree prune", cwd=REPO)
         sh("rm -rf %s" % WT)
-        sh("git worktree add -q --detach %s HEAD" % WT, cwd="/repo")
+        sh("git worktree add -q --detach %s HEAD" % WT, cwd=REPO)
     rows = []
     try:
         for sid in ids:
@@ -116,13 +120,13 @@ def main():
                 c["ok"] = bool(f == 0 and p3 == 74 and f3 == 0 and f2 and f2 > 0 and p2 == 74 + (p - 74) - f2)
                 meta["confirmed"] = c
             # run the check against the patch applied to /repo
-            r = sh("git apply %s/patch.diff" % d, cwd="/repo")
+            r = sh("git apply %s/patch.diff" % d, cwd=REPO)
             if r.returncode != 0:
                 meta["check"] = {"error": "patch does not apply: " + r.stdout[-300:]}
             else:
                 try:
                     env_seed = os.environ.get("VERIF_SEED", "1")
-                    r = sh("VERIF_SEED=%s ./check %s --tier %s" % (env_seed, prop, tier), cwd=VERIF)
+                    r = sh("VERIF_REPO_DIR=%s VERIF_SEED=%s ./check %s --tier %s" % (REPO, env_seed, prop, tier), cwd=VERIF)
                     lines = r.stdout.splitlines()
                     viol = [l for l in lines if l.startswith("VIOLATION")]
                     rules = [l.strip() for l in lines if l.strip().startswith("rule:")]
@@ -134,7 +138,7 @@ def main():
                         "last_line": lines[-1] if lines else "",
                     }
                 finally:
-                    sh("git checkout -- .", cwd="/repo")
+                    sh("git checkout -- .", cwd=REPO)
             json.dump(meta, open(os.path.join(d, "meta.json"), "w"), indent=1)
             conf = meta.get("confirmed", {}).get("ok")
             det = meta["check"].get("detected")
@@ -142,9 +146,9 @@ def main():
             rows.append("| %s | %s | %s | %s | `%s` |" % (sid, (meta["summary"] or "")[:110].replace("|", "/").replace("\n", " "), "yes" if conf else ("?" if conf is None else "NO"), "caught" if det else "MISSED (exit %s)" % meta["check"].get("exit"), rule.replace("|", "/")))
             print(rows[-1], flush=True)
     finally:
-        sh("git checkout -- .", cwd="/repo")
+        sh("git checkout -- .", cwd=REPO)
         if confirm:
-            sh("git worktree remove --force %s" % WT, cwd="/repo")
+            sh("git worktree remove --force %s" % WT, cwd=REPO)
             sh("rm -rf %s" % WT)
     # the matrix is always regenerated from every meta.json present (so --only merges into it)
     allrows = []
